@@ -77,6 +77,10 @@ Unknowns(r, item) == IF HasContent(r) THEN {item} ELSE {item, "NAME_UNKNOWN"}
 \* ---------------------------------------------------- manifest meaning --
 View(c, mt) == IF mt \in Interp THEN Cat[c].as[mt]
                ELSE [wf |-> TRUE, blobs |-> {}, mans |-> {}, subject |-> None, subjectType |-> None]
+\* wf: acceptable at push time under that type.  parses: the bytes can be read under that type at all
+\* (JSON of the right shape); what a reading that parses names - well-formed or not - is followed by
+\* the reachability walk.  A catalogue without the field means parses = wf.
+Parses(v) == IF "parses" \in DOMAIN v THEN v.parses ELSE v.wf
 RefBlobs(c, mt) == View(c, mt).blobs
 RefMans(c, mt) == {x[1] : x \in View(c, mt).mans}
 Subj(c, mt) == View(c, mt).subject
@@ -95,7 +99,7 @@ Readings(r, n, mixed) ==
   ELSE {mans[r][n[1]]} \cup (IF mixed THEN {n[2]} ELSE {})
 KidsUnder(c, mt) ==
   LET v == View(c, mt) IN
-  IF ~v.wf THEN {}
+  IF ~Parses(v) THEN {}
   ELSE v.mans \cup (IF v.subject = None THEN {} ELSE {<<v.subject, v.subjectType>>})
 ChildNodes(r, n, mixed) == UNION {KidsUnder(n[1], mt) : mt \in Readings(r, n, mixed)}
 RECURSIVE ReachN(_, _, _, _)
@@ -107,7 +111,12 @@ Roots(r) == {<<tags[r][t].c, tags[r][t].mt>> : t \in DOMAIN tags[r]}
 ReachNodes(r, mixed) == ReachN(r, Roots(r), Roots(r), mixed)
 ReachMans(r, mixed) == {n[1] : n \in ReachNodes(r, mixed)}
 ReachBlobs(r, mixed) ==
-  UNION {UNION {IF View(n[1], mt).wf THEN RefBlobs(n[1], mt) ELSE {} : mt \in Readings(r, n, mixed)} : n \in ReachNodes(r, mixed)}
+  UNION {UNION {IF Parses(View(n[1], mt)) THEN RefBlobs(n[1], mt) ELSE {} : mt \in Readings(r, n, mixed)} : n \in ReachNodes(r, mixed)}
+\* A reachable manifest whose bytes cannot be read under a type it is reached with (an index naming
+\* arbitrary bytes as an image manifest): the walk cannot be completed.  Deletes may then be refused
+\* with any error; what is protected stays protected.
+WalkBroken(r) ==
+  \E n \in ReachNodes(r, TRUE) : \E mt \in Readings(r, n, TRUE) : mt \in Interp /\ ~Parses(View(n[1], mt))
 \* C14: everything a tagged manifest transitively references remains retrievable.  A tag
 \* vouches for the media type it was pushed with, the registry for the type a manifest is stored
 \* with; what either reading reaches is protected (weakening either one under-protects: the K1
@@ -260,6 +269,7 @@ RawPut(r, u, data, off, dd) ==
 DeleteBlob(r, c) ==
   /\ IF c \notin blobs[r] THEN (\E code \in Unknowns(r, "BLOB_UNKNOWN") : res' = ErrR(code)) /\ UNCHANGED blobs
      ELSE \/ /\ MayKeepBlob(r, c) /\ res' = ErrR("DENIED") /\ UNCHANGED blobs
+          \/ /\ imm /\ WalkBroken(r) /\ res' = ErrR("FAIL") /\ UNCHANGED blobs
           \/ /\ ~MustKeepBlob(r, c)
              /\ blobs' = [blobs EXCEPT ![r] = @ \ {c}] /\ res' = OkR
   /\ UNCHANGED <<imm, mans, tags, ups, touched>>
@@ -267,6 +277,7 @@ DeleteBlob(r, c) ==
 DeleteManifest(r, c) ==
   /\ IF ~Has(mans[r], c) THEN (\E code \in Unknowns(r, "MANIFEST_UNKNOWN") : res' = ErrR(code)) /\ UNCHANGED mans
      ELSE \/ /\ MayKeepMan(r, c) /\ res' = ErrR("DENIED") /\ UNCHANGED mans
+          \/ /\ imm /\ WalkBroken(r) /\ res' = ErrR("FAIL") /\ UNCHANGED mans
           \/ /\ ~MustKeepMan(r, c)
              /\ mans' = [mans EXCEPT ![r] = Drop(@, c)] /\ res' = OkR
   /\ UNCHANGED <<imm, blobs, tags, ups, touched>>
